@@ -137,6 +137,9 @@ def cexpr(e):
             return '(PseedXrand %s %s %s)' % (C(e[1]), L(b[1]), creps(b[2]))
         if b[0] == 'Pwhite':
             return '(PseedWhite %s %s %s %s)' % (C(e[1]), C(b[1]), C(b[2]), creps(b[3]))
+        if b[0] == 'Pwrand':
+            nw = len(b[2]) if b[2] else len(b[1])
+            return '(PseedWrand %s %s %s %s)' % (C(e[1]), L(b[1]), cnat(nw), creps(b[3]))
     raise ValueError(k)
 
 
@@ -202,6 +205,10 @@ def show(e):
         return '%s(%s, %s)' % (k, L(e[1]), r(e[2]))
     if k == 'Pwhite':
         return 'Pwhite(%s, %s, %s)' % (S(e[1]), S(e[2]), r(e[3]))
+    if k == 'Pwrand':
+        return 'Pwrand(%s, %s, %s)' % (L(e[1]), None if e[2] is None else '[' + ', '.join(sv(x) for x in e[2]) + ']', r(e[3]))
+    if k == 'Pext':
+        return '%s(%s)' % (e[1], ', '.join(repr(a) for a in e[2]))
     return repr(e)
 
 
@@ -210,7 +217,9 @@ def children(e):
     k = e[0]
     if k == 'val':
         return []
-    if k in ('Pseq', 'Pser', 'Pswitch', 'Pswitch1', 'Ptuple', 'Pslide', 'Prand', 'Pxrand'):
+    if k == 'Pext':
+        return []
+    if k in ('Pseq', 'Pser', 'Pswitch', 'Pswitch1', 'Ptuple', 'Pslide', 'Prand', 'Pxrand', 'Pwrand'):
         out = list(e[1])
         out += [x for x in e[2:] if isinstance(x, list) and x and isinstance(x[0], str) and x[0][0] in 'Pv']
         return out
@@ -345,7 +354,13 @@ class Gen:
             else:
                 rp = r.choice([1, 2, 3, 4]) if const_seed else r.choice([0, 1, 2, 3, 4, 'inf'])
                 xs, finx, mns = self.items(sort, d - 1, lo, hi, need_min1=(const_seed or rp == 'inf'))
-                body = [r.choice(['Prand', 'Pxrand']), xs, rp]
+                body = [r.choice(['Prand', 'Pxrand', 'Pwrand']), xs, rp]
+                if body[0] == 'Pwrand':
+                    nw = len(xs) if r.random() < 0.85 else r.randint(1, len(xs) + 1)
+                    w = None if r.random() < 0.2 else [r.choice([vi(0), vi(1), vi(2), vf(Fraction(1, 2)), vf(Fraction(1, 4)), vi(3)]) for _ in range(nw)]
+                    if w is not None and all(Fraction(x[1]) == 0 for x in w):
+                        w[0] = vi(1)
+                    body = ['Pwrand', xs, w, rp]
                 body_fin = finx and rp != 'inf'
                 mnb = INFN if rp == 'inf' else rp * min(mns)
             e = ['Pseed', seeds, body]
@@ -760,6 +775,24 @@ def directed():
     return out
 
 
+EXT = [('Pwhite', [0.0, 1.0, 5]), ('Pwhite', [0.5, 3, 4]), ('Pbrown', [0.0, 1.0, 0.125, 6]), ('Pgbrown', [0.1, 1.0, 0.125, 5]),
+       ('Plprand', [0.0, 1.0, 5]), ('Phprand', [0.0, 1.0, 5]), ('Pmeanrand', [0.0, 1.0, 5]), ('Pbeta', [0.0, 1.0, 2, 3, 5]),
+       ('Pcauchy', [0.0, 1.0, 5]), ('Pgauss', [0.0, 1, 5]), ('Ppoisson', [3, 5]), ('Pexprand', [0.1, 1.0, 5]),
+       ('Pprob', [[0, 1, 2, 1, 0], 0.0, 1.0, None, 5]), ('Pwrand', [[1, 2, 3], [0.2, 0.3, 0.5], 6]), ('Pwrand', [[1, 2, 3], None, 6]),
+       ('Pshuffle', [[1, 2, 3], 2]), ('Pwalk', [[1, 2, 3, 4]]), ('Prand', [[1, 2, 3], 'inf']), ('Pxrand', [[1, 2, 3], 6])]
+
+
+def ext_cases(rng):
+    """EVERY random pattern class of the library under Pseed (float-valued ones included): not modelled, but all
+    streams of one blueprint must give the same sequence and must not touch the global generator."""
+    I = lambda x: V(vi(x))
+    out = []
+    for cls, args in EXT:
+        seed = rng.randint(0, 999)
+        out.append(['Pseed', ['Pseq', [I(seed), I(seed)], 1, 0], ['Pext', cls, args]])
+    return out
+
+
 def seeded_cases(rng, n):
     """Pseed-wrapped Prand / Pxrand / Pwhite with small bodies (many recorded draws)."""
     I = lambda x: V(vi(x))
@@ -768,7 +801,7 @@ def seeded_cases(rng, n):
         seed = rng.randint(0, 99)
         size = rng.randint(1, 4)
         lst = [I(rng.randint(0, 9)) for _ in range(size)]
-        k = rng.choice(['Prand', 'Pxrand', 'Pwhite', 'nest', 'Pwhite2'])
+        k = rng.choice(['Prand', 'Pxrand', 'Pwhite', 'nest', 'Pwhite2', 'Pwrand', 'Pwrand'])
         if k == 'Pwhite':
             body = ['Pwhite', I(0), I(rng.randint(1, 20)), rng.randint(1, 6)]
         elif k == 'Pwhite2':
@@ -777,6 +810,11 @@ def seeded_cases(rng, n):
         elif k == 'nest':
             inner = ['Pseed', I(seed), ['Pxrand', lst, 2]]       # same seed value, different call history
             body = ['Prand', [inner, ['Pseq', lst, 1, 0], I(77)], rng.randint(1, 4)]
+        elif k == 'Pwrand':
+            w = None if rng.random() < 0.25 else [rng.choice([vi(0), vi(1), vi(2), vf(Fraction(1, 2)), vi(5)]) for _ in lst]
+            if w is not None and all(Fraction(x[1]) == 0 for x in w):
+                w[-1] = vi(1)
+            body = ['Pwrand', lst, w, rng.randint(0, 6)]
         else:
             body = [k, lst, rng.randint(0, 6)]
         seeds = ['Pseq', [I(seed), I(rng.choice([seed, seed + 1]))], 1, 0]
@@ -839,6 +877,8 @@ def make_cases(ctx):
         cases.append({'expr': g.malformed(), 'n': 12, 'finite': False, 'src': 'malformed'})
     for e in seeded_cases(ctx.rng, ctx.n(60, 500)):
         cases.append({'expr': e, 'n': 16, 'finite': False, 'src': 'seeded'})
+    for e in ext_cases(ctx.rng):
+        cases.append({'expr': e, 'n': 14, 'finite': False, 'src': 'seeded_unmodelled', 'implonly': True})
     for c in cases:
         m = ctx.rng.randint(4, 2 * c['n'])
         c['sched'] = [ctx.rng.randint(0, 1) for _ in range(m)]
@@ -898,6 +938,10 @@ def correspond(ctx):
                     'correspondence', 'streams of one pattern differ (%s vs iter) for %s: %s vs %s' % (name, show(e), o[name], o['iter']),
                     signature='C13:streams_differ', found_input=True, theorem='streams_independent',
                     replay={'expr': e, 'show': show(e), 'iter': o['iter'], name: o[name]}))
+        if o.get('global_rng_touched'):
+            c.failures.append(Failure('correspondence', 'a pattern whose randomness is entirely under Pseed used the GLOBAL generator: %s' % show(e),
+                                      signature='C13:global_generator_used', found_input=True, theorem='seeded_same_sequence',
+                                      replay={'expr': e, 'show': show(e)}))
         if o.get('leaked_tt'):
             c.failures.append(Failure('correspondence', 'the current time thread is not restored after %s (left: %s)' % (show(e), o['leaked_tt']),
                                       signature='C13:leaked_current_tt', found_input=True, theorem='streams_independent',
@@ -916,6 +960,15 @@ def correspond(ctx):
             c.failures.append(Failure('correspondence', 'stream.all() differs from iteration for %s' % show(e),
                                       signature='C13:all_differs', found_input=True,
                                       replay={'expr': e, 'show': show(e), 'all': o['all'], 'iter': o['iter']}))
+        if k.get('implonly'):
+            for w in (0, 1):
+                tw = canon_end(o['two'][w])
+                if tw[0] != it_[0][:len(tw[0])]:
+                    c.failures.append(Failure('correspondence', 'interleaved streams of one seeded pattern differ: %s' % show(e),
+                                              signature='C13:seeded_differs', found_input=True, theorem='seeded_same_sequence',
+                                              replay={'expr': e, 'show': show(e), 'iter': o['iter'], 'two': o['two']}))
+            c.evaluations_extra = getattr(c, 'evaluations_extra', 0) + 1
+            continue
         if it_[1] == 'timeout' or has_x(it_):
             c.failures.append(Failure('correspondence', 'unexpected value or timeout on %s: %s' % (show(e), o['iter']),
                                       replay={'expr': e, 'show': show(e), 'iter': o['iter']}))
@@ -950,7 +1003,7 @@ def correspond(ctx):
     fuel_out = [j - 100000 for j in bad if j >= 100000]
     bad = [j for j in bad if j < 100000]
     c.count('model_out_of_fuel', len(fuel_out))
-    c.evaluations = len(items)
+    c.evaluations = len(items) + getattr(c, 'evaluations_extra', 0)
     c.rule = ('random expressions over Pseq Pser Pn Place Plen Pdrop Pstutter Pclump Pflatten Pdiff Pconst Pcollect Pselect '
               'Preject Pwrap Punop Pbinop Pnarop Pif Pseries Pgeom Pswitch Pswitch1 Ptuple Pslide Pseed(Prand|Pxrand|Pwhite) (depth <= %d, finite and inf '
               'repeats, ints / dyadic floats / bools / lists / tuples) plus directed boundary expressions and a malformed '
@@ -987,6 +1040,27 @@ def classify(e):
     return 'C13:' + (k if k != 'Pfun' else 'P' + e[1])
 
 
+class RefTimeout(Exception):
+    pass
+
+
+def bounded(f, seconds=1.0):
+    """Run f() in this (main) thread under a CPU-time alarm: the reference is a plain Python generator
+    algebra and spins for ever on an expression that never yields (Pstutter(1, 0), a selection that rejects
+    a constant stream ...).  Such expressions can be produced by the shrinker on a broken tree."""
+    import signal
+
+    def onalarm(sig, frm):
+        raise RefTimeout()
+    old = signal.signal(signal.SIGVTALRM, onalarm)
+    signal.setitimer(signal.ITIMER_VIRTUAL, seconds)
+    try:
+        return f()
+    finally:
+        signal.setitimer(signal.ITIMER_VIRTUAL, 0)
+        signal.signal(signal.SIGVTALRM, old)
+
+
 def oracle_disagrees(ctx, exprs, n=24):
     """Return [(expr, impl, ref)] for expressions on which the implementation differs from the reference."""
     import c13_reference as ref
@@ -998,9 +1072,9 @@ def oracle_disagrees(ctx, exprs, n=24):
             continue
         im = canon_end(o['iter'])
         try:
-            rf = ref.evaluate(e, n)
-        except (RecursionError, ref.Unsupported):
-            continue
+            rf = bounded(lambda: ref.evaluate(e, n))
+        except (RecursionError, ref.Unsupported, RefTimeout):
+            continue            # no verdict from the reference (e.g. an expression that never yields)
         if im != rf:
             bad.append((e, im, rf))
     return bad
@@ -1037,11 +1111,16 @@ def random_laws(ctx):
         vals = ctx.rng.sample(range(-20, 20), size)
         r = ctx.rng.randint(1, 12)
         seed = ctx.rng.randint(0, 999)
-        kind = ctx.rng.choice(['Prand', 'Pxrand', 'Pxrand', 'Pwhite'])
+        kind = ctx.rng.choice(['Prand', 'Pxrand', 'Pxrand', 'Pwhite', 'Pwrand'])
         if kind == 'Pwhite':
             lo, hi = sorted(ctx.rng.sample(range(-10, 10), 2))
             body = ['Pwhite', I(lo), I(hi), r]
             meta.append((kind, [lo, hi], r))
+        elif kind == 'Pwrand':
+            w = [ctx.rng.choice([0, 0, 1, 3]) for _ in vals]
+            w[ctx.rng.randrange(size)] = 2
+            body = ['Pwrand', [I(v) for v in vals], [vi(x) for x in w], r]
+            meta.append((kind, [v for v, x in zip(vals, w) if x > 0], r))       # items of weight 0 never appear
         else:
             body = [kind, [I(v) for v in vals], r]
             meta.append((kind, vals, r))
